@@ -117,6 +117,123 @@ def o10_5_version_builder(mir, tier):
     return res
 
 
+def o10_13_manifest_replay(mir, tier):
+    """Several edits accumulated on ONE builder before it is applied - what VersionSet::recover does with the records of a manifest:
+    reference = the edits applied one after the other as set operations per level (delete, then add)."""
+    acc = mir.method('VersionBuilder', 'accumulate_changes'); app = mir.method('VersionBuilder', 'apply_changes')
+    # (title, base files per level, edits); an edit = (deleted [(level, file ref)], added [(level, file ref)]); file refs: ('b', level, i) base file, ('n', k) new file k
+    N0, N1, N2 = ('n', 0), ('n', 1), ('n', 2)
+    scen = [
+        ('a flushed table is moved down as is by a later edit (trivial move of a file added earlier in the replay)', {2: 1}, [([], [(0, N0)]), ([(0, N0)], [(1, N0)])]),
+        ('a flushed table is compacted into the next level by a later edit', {1: 1}, [([], [(0, N0)]), ([(0, N0), (1, ('b', 1, 0))], [(1, N1)])]),
+        ('a table is moved down twice', {}, [([], [(1, N0)]), ([(1, N0)], [(2, N0)]), ([(2, N0)], [(3, N0)])]),
+        ('a base table is moved down and the move target is compacted away', {1: 1, 3: 1}, [([(1, ('b', 1, 0))], [(2, ('b', 1, 0))]), ([(2, ('b', 1, 0))], [(3, N0)])]),
+    ]
+    if tier == 'thorough':
+        scen += [('two flushes, then a compaction of both into level 1', {}, [([], [(0, N0)]), ([], [(0, N1)]), ([(0, N0), (0, N1)], [(1, N2)])]),
+                 ('moved down, then moved down again while another table is flushed', {}, [([], [(0, N0)]), ([(0, N0)], [(1, N0)]), ([(1, N0)], [(2, N0), (0, N1)])])]
+    res = Result('O10.13 VersionBuilder over several accumulated edits (manifest replay)',
+                 [acc.path, app.path, 'VersionBuilder::maybe_add_file (inlined)', 'FileMetadataBySmallestKey::compare (inlined)'],
+                 '%d replay scenarios of 2..3 edits on versions with <= 1 file per level; file metadata symbolic; hash sets as duplicate-free lists' % len(scen))
+    t0 = time.time()
+    numf = mir.field('FileMetadata', 'file_number'); filesf = mir.field('Version', 'files')
+    for title, base, edits in scen:
+        w = World(mir)
+        lv = {l: [w.file('b%d_%d' % (l, i), number=100 * l + i + 1) for i in range(n)] for l, n in base.items()}
+        newf = {}
+        def F(ref):
+            if ref[0] == 'b': return lv[ref[1]][ref[2]]
+            if ref not in newf: newf[ref] = w.file('n%d' % ref[1], number=900 + ref[1])
+            return newf[ref]
+        cur = {l: list(lv.get(l, [])) for l in range(7)}
+        manifests = []
+        for dels, adds in edits:
+            dl = [(l, F(r)) for l, r in dels]; ad = [(l, F(r)) for l, r in adds]
+            for l, f in dl: cur[l] = [x for x in cur[l] if x is not f]
+            for l, f in ad: cur[l] = cur[l] + [f]
+            manifests.append((dl, ad))
+        expect = cur
+        pre = list(w.pre)
+        allf = [f for l in lv for f in lv[l]] + list(newf.values())
+        pre += [kle(w.F(f)['sm'], w.F(f)['lg']) for f in allf]
+        for l in range(1, 7):
+            pre += sorted_disjoint([w.F(f) for f in lv.get(l, [])])
+            for a, b in itertools.combinations([w.F(f) for f in expect[l]], 2): pre.append(Or(klt(a['lg'], b['sm']), klt(b['lg'], a['sm'])))
+        builder = mir.mk_struct('VersionBuilder', deleted_files=[{'set': []} for _ in range(7)], added_files=[{'set': []} for _ in range(7)],
+                                compaction_pointers=[Enum('None')] * 7, already_invoked=BoolVal(False))
+        node = mir.mk_struct('Node', element=mk_version(mir, lv))
+        ex = Exec(mir, builder_summaries(mir), loop_bound=12)
+        env = {'$state': {}, '$b': builder, '$node': node, '$ptrs': [Enum('None')] * 7}
+        for i, (dl, ad) in enumerate(manifests):
+            env['$m%d' % i] = mir.mk_struct('VersionChangeManifest', compaction_pointers=[], deleted_files={'set': [mir.mk_struct('DeletedFile', level=bv(l), file_number=f[numf]) for l, f in dl]},
+                                            new_files=[(bv(l), f) for l, f in ad], wal_file_number=Enum('None'), prev_wal_file_number=Enum('None'))
+        def argv(m, lv=lv, manifests=manifests, w=w):
+            a = ['version_builder_edits']
+            for l in sorted(lv): a += ['@%d' % l] + _files_argv(m, [w.F(f) for f in lv[l]])
+            for dl, ad in manifests:
+                a += ['--edit', '--delete'] + ['%d:%d' % (l, simplify(f[numf]).as_long()) for l, f in dl] + ['--add']
+                for l, f in ad: a += ['@%d' % l] + _files_argv(m, [w.F(f)])
+            return a
+        def step(i, env, pc, ex=ex, manifests=manifests, expect=expect, title=title, argv=argv, w=w):
+            if i < len(manifests):
+                return ex.run_fn(acc, [Ref('$b'), Ref('$m%d' % i)], env, pc, lambda r, e2, p2: step(i + 1, e2, p2))
+            def after_app(newv, env2, pc2):
+                posts = []
+                for l in range(7):
+                    gs = sorted(simplify(f[numf]).as_long() for f in newv[filesf][l]); ws = sorted(simplify(f[numf]).as_long() for f in expect[l])
+                    posts.append(('after several accumulated edits the new version does not hold what the edits, applied in order, leave at some level (a table listed at two levels, a deleted table kept, an added table lost)', BoolVal(gs == ws)))
+                    if l > 0 and len(newv[filesf][l]) > 1:
+                        fs = [w.F(f) for f in newv[filesf][l]]
+                        posts.append(('a level >= 1 of the new version is not sorted by smallest key / not disjoint', And(*[klt(fs[k]['lg'], fs[k + 1]['sm']) for k in range(len(fs) - 1)])))
+                bad = False
+                for label, post, m in ex.check_posts(posts, pc2):
+                    bad = True; res.violations.append({'label': label, 'scenario': title, 'replay': argv(m)})
+                if not bad and not any(wi.get('scenario') == title for wi in res.witnesses) and len(res.witnesses) < 4:
+                    m = ex.model()
+                    if m is not None: res.witnesses.append({'scenario': title, 'executor_result': [[simplify(f[numf]).as_long() for f in newv[filesf][l]] for l in range(7)], 'replay': argv(m)})
+                ex.paths += 1
+            ex.run_fn(app, [Ref('$b'), Ref('$node'), bv(5), bv(9), Ref('$ptrs')], env, pc, after_app)
+        ex.top(acc, [Ref('$b'), Ref('$m0')], env, pre, lambda r, e, p: step(1, e, p))
+        res.absorb(ex); res.cases[title] = ex.paths
+        for pc, msg, where in ex.panics:
+            res.panic_paths += 1
+            ex.solver.push(); ex.solver.add(*pre); ex.solver.add(*[c for c in pc if not isinstance(c, bool)])
+            m = ex.solver.model() if str(ex.solver.check()) == 'sat' else None; ex.solver.pop()
+            res.violations.append({'label': 'applying well-formed accumulated edits panics: ' + msg[:70], 'scenario': title, 'replay': argv(m) if m is not None else None})
+    res.wall_s = time.time() - t0
+    if res.violations: res.status = 'violation'
+    return res
+
+
+def _vbe_expected(argv):
+    """reference for a version_builder_edits command line: file numbers per level after the edits"""
+    cur = {l: [] for l in range(7)}; mode = 'base'; lvl = None
+    for t in argv[1:]:
+        if t == '--edit': mode = 'edit'; continue
+        if t == '--delete': mode = 'del'; continue
+        if t == '--add': mode = 'add'; continue
+        if mode == 'del': l, n = t.split(':'); cur[int(l)] = [x for x in cur[int(l)] if x != int(n)]; continue
+        if t.startswith('@'): lvl = int(t[1:]); continue
+        cur[lvl].append(_pf(t)['num'])
+    return cur
+
+
+def o10_13_confirm(v, out):
+    if out.get('_timeout'): return (False, 'native run timed out')
+    if out.get('_rc') != 0 or out.get('panicked') == 'true':
+        return (True, 'native VersionBuilder panicked: %s' % (out.get('panic_message') or out.get('_stderr', '')[-200:]))
+    want = _vbe_expected(v['replay']); bad = []
+    for l in range(7):
+        got = sorted(int(x) for x in out.get('l%d' % l, '').split(',') if x)
+        if sorted(want[l]) != got: bad.append('level %d: native %s, expected %s' % (l, got, sorted(want[l])))
+    return (bool(bad), '; '.join(bad) or 'native result equals the edits applied in order')
+
+
+def o10_13_witness_ok(w, out):
+    if out.get('_rc') != 0 or out.get('panicked') == 'true': return False
+    return all(sorted(int(x) for x in out.get('l%d' % l, '').split(',') if x) == sorted(w['executor_result'][l]) for l in range(7))
+
+
 def _vb_parse(argv):
     base, dele, add, mode, cur = {}, [], {}, 'base', None
     for t in argv[1:]:
